@@ -280,7 +280,7 @@ class Check:
         return res
 
     # ------------------------------------------------------------------ TLAPS
-    def tlaps(self, module, mutate=None, timeout=900):
+    def tlaps(self, module, mutate=None, timeout=900, deps=()):
         """Runs the TLA+ proof system on a copy of specs/<module>.tla in a
         scratch directory.  Returns (proved, total).  With `mutate` =
         (old, new) the text is changed first (negative control: the changed
@@ -297,6 +297,8 @@ class Check:
                 text = text.replace(mutate[0], mutate[1])
             with open(os.path.join(tmp, module + ".tla"), "w") as f:
                 f.write(text)
+            for dep in deps:         # modules it EXTENDS (same directory)
+                shutil.copy(os.path.join(SPECS, dep + ".tla"), tmp)
             try:
                 p = subprocess.run(["tlapm", "--threads", "8",
                                     module + ".tla"], cwd=tmp,
